@@ -39,6 +39,8 @@ func rulesC07(w *World, r *Report) {
 	w.rulePairOctets(r, "C07.R3 encoder/decoder octet agreement", "long")
 	w.ruleWrapperForwards(r, "C07.R3 read wrappers forward the decoder", "int")
 	w.ruleWrapperForwards(r, "C07.R3 read wrappers forward the decoder", "long")
+	w.ruleDecoderInverts(r, "C07.R6 the decoder rebuilds the encoded integer bit for bit", "int")
+	w.ruleDecoderInverts(r, "C07.R6 the decoder rebuilds the encoded integer bit for bit", "long")
 	w.ruleKindNarrowing(r, "C07.R4 no silent narrowing in the kind dispatch")
 	w.ruleNoIntThroughFloat(r, "C07.R5 decoded integers never pass through a floating-point type")
 	r.note("spec table digest %s", specDigest())
@@ -49,6 +51,7 @@ func rulesC08(w *World, r *Report) {
 	w.ruleDecoderForms(r, "C08.R3 reader accepts every spec form", "double")
 	w.rulePairOctets(r, "C08.R3 encoder/decoder octet agreement", "double")
 	w.ruleWrapperForwards(r, "C08.R3 read wrappers forward the decoder", "double")
+	w.ruleDecoderInverts(r, "C08.R5 the decoder rebuilds the encoded number bit for bit", "double")
 	w.ruleFloatKinds(r, "C08.R3 float kinds use the double codec on both sides")
 	w.ruleNoValueRejection(r, "C08.R4 the float field reader rejects nothing but a failed read", []string{"Float32", "Float64"})
 	r.note("spec table digest %s", specDigest())
